@@ -22,6 +22,8 @@ TRUSTED_BASE = [
     "modelled, not verified: recovery.py, congestion/{base,reno,cubic}.py as Gallina functions; logging "
     "(quic_logger) is outside the model; handlers are assumed not to re-enter the recovery object",
     "tools/gen/c08_consts.py (reads K_* constants from the source into coq/gen/C08Consts.v)",
+    "system-level oracle (sim_run): two real QuicConnections over a simulated lossy network; reads the private "
+    "attributes _loss, _probe_pending, _max_datagram_size; flight budget is explored, not proved",
 ]
 ASSUMPTIONS = [
     "fresh packet numbers: a (space, packet number) pair is passed to on_packet_sent at most once",
@@ -615,6 +617,159 @@ def exhaustive(npk, ccs=("reno", "cubic"), quick=False):
                     yield {"cc": cc, "mss": 1200, "irtt": fh(0.1), "pcav": 1, "ops": ops}
 
 
+# ------------------------------------------------------------------------------------ system-level oracle
+def sim_run(seed, cc, loss, nbytes, max_steps=1500):
+    """Two real QuicConnections joined by a lossy in-memory network with virtual time.  After every
+    public call (datagrams_to_send / receive_datagram / handle_timer) the ledger is recomputed from
+    _loss.spaces[*].sent_packets; the hypotheses of the theorems are checked on real traffic (fresh packet
+    numbers per space, sent_bytes > 0, ack-eliciting => in flight); and the flight budget of C08's last
+    sentence is checked empirically: the ack-eliciting in-flight bytes registered by one
+    datagrams_to_send() call are at most max(cwnd - bytes_in_flight, one datagram if a probe is pending).
+    (Reads the private attributes _loss, _probe_pending, _max_datagram_size of QuicConnection.)"""
+    import os
+    import random
+    import ssl
+    from aioquic.buffer import Buffer
+    from aioquic.quic import events
+    from aioquic.quic.configuration import QuicConfiguration
+    from aioquic.quic.connection import QuicConnection
+    from aioquic.quic.packet import pull_quic_header
+    rng = random.Random("c08-sim/%d/%s" % (seed, cc))
+    cconf = QuicConfiguration(is_client=True, alpn_protocols=["x"], congestion_control_algorithm=cc)
+    cconf.verify_mode = ssl.CERT_NONE
+    sconf = QuicConfiguration(is_client=False, alpn_protocols=["x"], congestion_control_algorithm=cc)
+    sconf.load_cert_chain(os.path.join(core.REPO, "tests", "ssl_cert.pem"), os.path.join(core.REPO, "tests", "ssl_key.pem"))
+    ends = {"c": QuicConnection(configuration=cconf), "s": None}
+    now = 0.0
+    ends["c"].connect(("1.2.3.4", 1234), now)
+    log = []
+    stats = {"public_calls": 0, "sending_calls": 0, "probe_calls": 0, "packets": 0, "exempt_packets": 0}
+    seen = {"c": set(), "s": set()}
+    wire = []
+    sent_stream = done = False
+    answered = set()
+
+    def ledger(name, what):
+        conn = ends[name]
+        rec = conn._loss
+        stats["public_calls"] += 1
+        tot = 0
+        for si, sp in enumerate(rec.spaces):
+            cnt = 0
+            for pn, p in sp.sent_packets.items():
+                if p.in_flight:
+                    tot += p.sent_bytes
+                if p.is_ack_eliciting:
+                    cnt += 1
+            if cnt != sp.ack_eliciting_in_flight:
+                log.append(("aeif", "%s after %s: ack_eliciting_in_flight=%d, %d tracked" % (name, what, sp.ack_eliciting_in_flight, cnt)))
+        if tot != rec.bytes_in_flight or tot < 0:
+            log.append(("ledger", "%s after %s: bytes_in_flight=%d, tracked=%d" % (name, what, rec.bytes_in_flight, tot)))
+        if rec.congestion_window < 2 * conn._max_datagram_size:
+            log.append(("cwnd_floor", "%s after %s: congestion_window=%d" % (name, what, rec.congestion_window)))
+
+    def snapshot(conn):
+        return {(i, pn) for i, sp in enumerate(conn._loss.spaces) for pn in sp.sent_packets}
+
+    for step in range(max_steps):
+        for name in ("c", "s"):
+            conn = ends[name]
+            if conn is None:
+                continue
+            rec = conn._loss
+            before = snapshot(conn)
+            cw, bif, probe = rec.congestion_window, rec.bytes_in_flight, conn._probe_pending
+            dgs = conn.datagrams_to_send(now)
+            new = snapshot(conn) - before
+            budgeted = 0
+            for (i, pn) in sorted(new):
+                p = rec.spaces[i].sent_packets[pn]
+                stats["packets"] += 1
+                if (i, pn) in seen[name]:
+                    log.append(("hyp_fresh", "%s: packet number %d reused in space %d" % (name, pn, i)))
+                seen[name].add((i, pn))
+                if p.sent_bytes <= 0:
+                    log.append(("hyp_bytes", "%s: sent_bytes=%d" % (name, p.sent_bytes)))
+                if p.is_ack_eliciting and not p.in_flight:
+                    log.append(("hyp_flags", "%s: ack-eliciting packet %d not in flight" % (name, pn)))
+                if p.in_flight and p.is_ack_eliciting:
+                    budgeted += p.sent_bytes
+                elif p.in_flight:
+                    stats["exempt_packets"] += 1
+            if new:
+                stats["sending_calls"] += 1
+                stats["probe_calls"] += int(bool(probe))
+                allow = max(cw - bif, conn._max_datagram_size if probe else 0, 0)
+                if budgeted > allow:
+                    log.append(("flight_budget", "%s step %d: %d ack-eliciting in-flight bytes sent, window %d, in flight %d, probe %s"
+                                % (name, step, budgeted, cw, bif, probe)))
+            ledger(name, "datagrams_to_send")
+            for data, _addr in dgs:
+                if rng.random() >= loss:
+                    wire.append((now + rng.choice([0.01, 0.02, 0.05]), "s" if name == "c" else "c", data))
+        wire.sort(key=lambda x: x[0])
+        timers = [t for t in (c.get_timer() for c in ends.values() if c is not None) if t is not None]
+        if not wire and not timers:
+            break
+        now = max(now, min([w[0] for w in wire] + timers))
+        while wire and wire[0][0] <= now:
+            _, dst, data = wire.pop(0)
+            if ends[dst] is None:
+                hdr = pull_quic_header(Buffer(data=data), host_cid_length=8)
+                ends[dst] = QuicConnection(configuration=sconf, original_destination_connection_id=hdr.destination_cid)
+            ends[dst].receive_datagram(data, ("1.2.3.4", 1234) if dst == "s" else ("5.6.7.8", 4433), now)
+            ledger(dst, "receive_datagram")
+        for name, c in ends.items():
+            if c is None:
+                continue
+            t = c.get_timer()
+            if t is not None and t <= now:
+                # a real clock fires slightly late; firing at exactly get_timer() can be a no-op that leaves
+                # the loss timer at the same instant (see docs/C08.md, observation 4)
+                now += 1e-6
+                c.handle_timer(now)
+                ledger(name, "handle_timer")
+            ev = c.next_event()
+            while ev is not None:
+                if isinstance(ev, events.HandshakeCompleted) and name == "c" and not sent_stream:
+                    c.send_stream_data(c.get_next_available_stream_id(), bytes(nbytes), end_stream=True)
+                    sent_stream = True
+                elif isinstance(ev, events.StreamDataReceived) and ev.end_stream and (name, ev.stream_id) not in answered:
+                    answered.add((name, ev.stream_id))   # (a duplicate FIN re-emits the event: known finding F1)
+                    if name == "s":
+                        c.send_stream_data(ev.stream_id, bytes(nbytes // 2), end_stream=True)
+                    else:
+                        c.close()
+                elif isinstance(ev, events.ConnectionTerminated) and name == "s":
+                    done = True
+                ev = c.next_event()
+        if done or len(log) > 5:
+            break
+    stats["completed"] = int(done)
+    return log, stats
+
+
+def system_runs(ctx, n):
+    import os
+    tot = {"runs": 0, "public_calls": 0, "sending_calls": 0, "probe_calls": 0, "packets": 0, "exempt_packets": 0, "completed": 0}
+    if not os.path.exists(os.path.join(core.REPO, "tests", "ssl_cert.pem")):
+        tot["skipped"] = "tests/ssl_cert.pem not found in the tree"
+        return tot
+    for k in range(n):
+        params = {"seed": ctx.seed + k, "cc": ("reno", "cubic")[k % 2], "loss": (0.0, 0.05, 0.2, 0.4)[(k // 2) % 4],
+                  "nbytes": (60000, 200000)[(k // 8) % 2]}
+        try:
+            log, st = sim_run(params["seed"], params["cc"], params["loss"], params["nbytes"])
+        except Exception as e:
+            log, st = [("raise", "simulated connection pair raised %r" % (e,))], {}
+        tot["runs"] += 1
+        for key, v in st.items():
+            tot[key] = tot.get(key, 0) + v
+        for rule, what in log[:1]:
+            ctx.violation("impl-violation", "system run: " + what, {"sim": params}, signature={"rule": rule, "level": "system"})
+    return tot
+
+
 # ------------------------------------------------------------------------------------ driver
 def _ops(c):
     return c["ops"]
@@ -688,6 +843,7 @@ def run(ctx):
             break
         s.run(allc[i:i + chunk])
     _tally(s, batches[0][1][:300] + batches[2][1][:60])
+    system = system_runs(ctx, ctx.n(24, 200))
     return corr.merge_coverage(
         [s],
         "op histories on the real QuicPacketRecovery (3 spaces, reno and cubic alternating): sends with all flag "
@@ -696,11 +852,17 @@ def run(ctx):
         "pacer calls; plus small-scope exhaustive (3 packets quick / <=4 thorough x all ack subsets x tails). "
         "distinct = distinct model expression; non-trivial = at least one send followed by an ack/timeout/discard",
         {"exhaustive_small_scope": skipped == 0, "exhaustive_cases": len(ex),
-         "cases_skipped_by_time_guard": skipped})
+         "cases_skipped_by_time_guard": skipped, "system_tie": system})
 
 
 def replay(ctx, rep):
     s = suite(ctx)
     case = rep["case"]
+    if isinstance(case, dict) and "sim" in case:
+        p = case["sim"]
+        log, st = sim_run(p["seed"], p["cc"], p["loss"], p["nbytes"])
+        return {"system": {"violations": log[:10], "stats": st}}
+    if not isinstance(case, dict):
+        return {"error": "case was truncated when it was stored; not replayable"}
     d, e, g = s.disagree(case)
     return {"recovery": {"disagree": d, "impl": e, "model": g, "oracle": rc_oracle(case)}}
